@@ -127,3 +127,18 @@ class Args:
 
     def __contains__(self, k):
         return k in self.__dict__
+
+
+def nucleic_lines(seq, chain="A", start=1, serial0=1, spacing=9.0, origin=(0.0, 0.0, 0.0), ter=True):
+    """A nucleic-acid strand from NA.xml template coordinates (residues are
+    laid out `spacing` A apart; pdb2pqr does not use inter-nucleotide geometry)."""
+    lines = []
+    s = serial0
+    for i, name in enumerate(seq):
+        off = (origin[0] + i * spacing, origin[1], origin[2])
+        rl = residue_lines(name, chain, start + i, s, off)
+        s += len(rl)
+        lines += rl
+    if ter:
+        lines.append("TER")
+    return lines
